@@ -135,10 +135,12 @@ class Group(SharedRegistryObject):
 
     def remove_units(self, *unit_names: str) -> None:
         """Remove units from group."""
-        for unit_name in unit_names:
-            self._unit_names.remove(unit_name)
-
-        self.invalidate_members()
+        try:
+            for unit_name in unit_names:
+                self._unit_names.remove(unit_name)
+        finally:
+            # also when a name is refused part-way: what was removed is removed
+            self.invalidate_members()
 
     def add_groups(self, *group_names: str) -> None:
         """Add groups to group."""
@@ -162,13 +164,14 @@ class Group(SharedRegistryObject):
     def remove_groups(self, *group_names: str) -> None:
         """Remove groups from group."""
         d = self._REGISTRY._groups
-        for group_name in group_names:
-            grp = d[group_name]
+        try:
+            for group_name in group_names:
+                grp = d[group_name]
 
-            self._used_groups.remove(group_name)
-            grp._used_by.remove(self.name)
-
-        self.invalidate_members()
+                self._used_groups.remove(group_name)
+                grp._used_by.remove(self.name)
+        finally:
+            self.invalidate_members()
 
     @classmethod
     def from_lines(
